@@ -383,12 +383,12 @@ func (a *Authority) Bootstrap(b BootArgs) (err error, crashed bool) {
 				args = append(args, "--signing_key_cn", b.SignCN)
 			}
 			if b.RootSerial != 0 {
-				args = append(args, "--root_key_serial", fmt.Sprint(b.RootSerial))
+				args = append(args, "--root_key_serial", padSerial(b.RootSerial))
 			}
 			if b.SignSerialBig != nil {
 				args = append(args, "--initial_signing_key_serial", b.SignSerialBig.String())
 			} else if b.SignSerial != 0 {
-				args = append(args, "--initial_signing_key_serial", fmt.Sprint(b.SignSerial))
+				args = append(args, "--initial_signing_key_serial", padSerial(b.SignSerial))
 			}
 			return a.runCLI(p, nil, args)
 		}
@@ -437,7 +437,7 @@ func (a *Authority) Rotate(ra RotArgs) (err error, crashed bool) {
 			if ra.SerialBig != nil {
 				args = append(args, "--rotated_key_serial_override", ra.SerialBig.String())
 			} else if ra.SerialOverride != 0 {
-				args = append(args, "--rotated_key_serial_override", fmt.Sprint(ra.SerialOverride))
+				args = append(args, "--rotated_key_serial_override", padSerial(ra.SerialOverride))
 			}
 			return a.runCLI(p, nil, args)
 		}
@@ -681,4 +681,14 @@ func (a *Authority) DecoratedView() (*View, error) {
 	c.CA = &faultyCA{c.CA, a.Plan, a}
 	v.CA, v.Signer = c.CA, c.Signer
 	return v, nil
+}
+
+// padSerial writes a serial for the command line the way operators copy them out of fixed-width
+// listings: every third value zero-padded (a decimal number all the same). Decided by the value,
+// not by a draw, so that it costs no choice of the run.
+func padSerial(v int64) string {
+	if v > 0 && v%3 == 1 {
+		return fmt.Sprintf("%05d", v)
+	}
+	return fmt.Sprint(v)
 }
